@@ -258,8 +258,10 @@ def _end_redirects_and_joins(ctx, rep, tier):
     rep.check(idx_t is not None and idx_s is not None and idx_t < idx_s, "C17.g", q, "the run-time test precedes the static answer", "static DONE/FAIL is emitted before the redirect test: the test is dead code")
     # C17.h - joining a statement that starts with a condition point
     q = "DFA.append_after"
-    rep.rule("C17.h", "append_after wraps a chained machine starting with a condition point whenever some symbol can continue (also when nothing is left for the error side, as with wildcard + `end` branches)")
-    ok = model.has(q, "valid, to_else = chained_dfa.starting_state.equivalent_on_values()\nif valid:\n    ...") and \
+    rep.rule("C17.h", "append_after wraps a chained machine starting with a condition point whenever some symbol can continue (also when nothing is left for the error side, as with wildcard + `end` branches) and, else-like, when no branch starts with a match at all")
+    ok = model.has(q, "valid, to_else = chained_dfa.starting_state.equivalent_on_values()\n...\nif valid:\n    ...") and \
+        model.has(q, "only_acts = isinstance(chained_dfa.starting_state, DFConditionPoint) and (not valid) and (not to_else)\nif only_acts:\n    valid = {DFTransition.Else}") and \
+        model.has(q, "if only_acts:\n    fake_initial_transition.handles_else()") and \
         model.has(q, "if to_else:\n    fake_start[to_else] = chained_dfa.starting_state\n    fake_start[to_else].fallthrough(True).handles_else()") and \
         model.has(q, "fake_start[valid] = chained_dfa.starting_state\nfake_initial_transition = fake_start[valid].fallthrough(True)")
     rep.check(ok, "C17.h", q, "helper start state built under `if valid:`; error side only when non-empty", "the helper start state for a chained condition point is only built when some symbol is left for the error "
